@@ -668,13 +668,21 @@ func (c *Ctx) applyUF(fv FuncV, args []Val) Val {
 	var sorts []Sort
 	var ts []T
 	for i, a := range args {
-		t, ok := a.(T)
-		if !ok {
+		var t T
+		var k Sort
+		switch x := a.(type) {
+		case T:
+			t = x
+			k, _ = sortOfBasic(sig.Params().At(i).Type())
+			if k == SReal {
+				t = toReal(t)
+			}
+		case IfaceV:
+			// an array argument: identified by its reference (contents enter
+			// through the function's own contract, not through the symbol)
+			t, k = x.Ref, SInt
+		default:
 			panic(vcErr("uninterpreted function %s applied to %T", fv.Sym, a))
-		}
-		k, _ := sortOfBasic(sig.Params().At(i).Type())
-		if k == SReal {
-			t = toReal(t)
 		}
 		sorts = append(sorts, k)
 		ts = append(ts, t)
